@@ -271,9 +271,36 @@ def sib5(ctx, pid):
             if tt[3] == ("call", "ext:eth_utils.to_int", (("p", "key"),), ()):
                 tt = (tt[0], tt[1], tt[3], tt[2])  # `&` is commutative
             if bitvar is None:
-                # no moving mask (`(path >> i) & 1` over an enumeration, ...): a spelling of the bit walk this table
-                # does not read
-                unsure.append("the bit test `%s` is not of the moving-mask form (mask <<= 1 per level)" % tstr(tt)[:60])
+                # second spelling: `(path >> i) & 1` with i, sibling from enumerate(reversed(branch)) - bit i for the
+                # i-th sibling from the leaf end is LSB first by construction
+                shifted, one = tt[2], tt[3]
+                if one != C(1) and shifted == C(1):
+                    shifted, one = one, shifted
+                okshift = False
+                if one == C(1) and shifted[0] == "bin" and shifted[1] == ">>" and shifted[2] == ("call", "ext:eth_utils.to_int", (("p", "key"),), ()):
+                    ix = shifted[3]
+                    if ix[0] == "sub" and ix[2] == C(0) and ix[1][0] == "iter" and ix[1][1][0] == "call" and ix[1][1][1] == "ext:enumerate" \
+                            and ix[1][1][2] and ix[1][1][2][0][0] == "call" and ix[1][1][2][0][1] == "ext:reversed":
+                        okshift = True
+                        sib_term = eng.mk_sub(ix[1], C(1))
+                if not okshift:
+                    unsure.append("the bit test `%s` is neither the moving-mask form nor (path >> i) & 1 over enumerate(reversed(branch))" % tstr(tt)[:60])
+                    continue
+                cat = None
+                for v_ in st.env.values():
+                    w_ = v_
+                    if isinstance(w_, tuple) and w_ and w_[0] == "call" and w_[1] == KECCAK and w_[2]:
+                        w_ = w_[2][0]
+                    if isinstance(w_, tuple) and len(w_) == 4 and w_[0] == "bin" and w_[1] == "+" and (w_[2] == sib_term) != (w_[3] == sib_term):
+                        cat = w_
+                if cat is None:
+                    unsure.append("cannot interpret the parent construction of the enumerate form")
+                    continue
+                sib_first = cat[2] == sib_term
+                if pp and not sib_first:
+                    probs.append("bit set: parent is `%s`; expected sibling + node (the current node is the right child)" % tstr(cat)[:60])
+                if not pp and sib_first:
+                    probs.append("bit clear: parent is `%s`; expected node + sibling (the current node is the left child)" % tstr(cat)[:60])
                 continue
             if tt[3] != C(1):
                 probs.append("first tested bit is `%s`, expected 1 (LSB first, leaf -> root)" % tstr(tt[3])[:40])
